@@ -175,6 +175,39 @@ def run(tier, seed):
                              f"from jsonpath import JSONPointer\nfrom jsonpath.exceptions import JSONPointerError, RelativeJSONPointerError\ntry:\n    JSONPointer({base!r}).to({rel!r})\nexcept (JSONPointerError, RelativeJSONPointerError):\n    sys.exit(0)\nexcept Exception as e:\n    print(type(e).__name__, e); sys.exit(1)\nsys.exit(0)")
                 else:
                     rec.ok(("rel-digit", base, rel))
+        # index-like tokens (plain, and behind the non-standard `#` marker) of every sign and size against arrays
+        # of every small length, at the root and below a member, through every resolving entry point and every
+        # patch operation: exhaustive (a `#` index below -len reached range.__getitem__ in a seeded change)
+        itoks = ["#-1", "#-2", "#-3", "#-4", "#-99", "#0", "#1", "#2", "#3", "#99", "#01", "#+1", "#-0", "#-", "#²", "#", "-1", "-2", "-3", "-4", "-99", "0", "3", "99", "-0", "-"]
+        for ln in range(4):
+            arr = list(range(10, 10 + ln))
+            for t in itoks:
+                for text, d in (("/" + t, arr), ("/a/" + t, {"a": arr}), ("/a/" + t + "/x", {"a": arr}), ("/0/" + t, [arr])):
+                    src = f"from jsonpath import JSONPointer\nfrom jsonpath.exceptions import JSONPointerResolutionError\np = JSONPointer({text!r})\nfor f in (p.resolve, p.exists, p.resolve_parent, lambda x: p.resolve(x, default=None)):\n    try:\n        f({d!r})\n    except JSONPointerResolutionError:\n        pass\n    except Exception as e:\n        print(type(e).__name__, e); sys.exit(1)\nsys.exit(0)"
+                    box = {}
+                    why = guarded("pointer", lambda: box.setdefault("p", JSONPointer(text)))
+                    if why:
+                        rec.fail(f"index-token:{why[:40]}", f"JSONPointer({text!r}) -> {why}", src)
+                        continue
+                    if "p" not in box:
+                        rec.ok()
+                        continue
+                    pp = box["p"]
+                    why = guarded("resolve", lambda: pp.resolve(d)) or guarded("resolve", lambda: pp.exists(d)) or guarded("resolve", lambda: pp.resolve_parent(d)) or guarded("resolve", lambda: pp.resolve(d, default=None))
+                    if why:
+                        rec.fail(f"index-token:{why[:40]}", f"JSONPointer({text!r}).resolve/exists/resolve_parent/resolve(default=None)({d!r}) -> {why}", src)
+                    else:
+                        rec.ok(("index-token", t, ln))
+                    for opn in ("add", "remove", "replace", "test", "addne", "addap", "move", "copy"):
+                        op = {"op": opn, "path": text, "value": 1}
+                        if opn in ("move", "copy"):
+                            op = {"op": opn, "from": text, "path": "/zz"} if isinstance(d, dict) else {"op": opn, "from": text, "path": "/-"}
+                        why = guarded("patch", lambda: JSONPatch([op]).apply(__import__("copy").deepcopy(d)))
+                        if why:
+                            rec.fail(f"index-token-patch:{why[:40]}", f"JSONPatch([{op!r}]).apply({d!r}) -> {why}",
+                                     f"import copy\nfrom jsonpath import JSONPatch\nfrom jsonpath.exceptions import JSONPatchError\ntry:\n    JSONPatch([{op!r}]).apply({d!r})\nexcept JSONPatchError:\n    sys.exit(0)\nexcept Exception as e:\n    print(type(e).__name__, e); sys.exit(1)\nsys.exit(0)")
+                        else:
+                            rec.ok()
         opnames = ["add", "remove", "replace", "move", "copy", "test", "addne", "addap", "nope", 1, None]
         ppaths = ["", "/a", "/a/0", "/b/-", "/b/0", "/b/5", "/#", "/a/#0", "/~", "/-", "/c/a", "a", "/b/01", "/\\", "/b/-1", 5, None, "/a\\u00",
                   "/#a", "/#b", "/b/#0", "/b/#1", "/b/#5", "/#0", "/#1", "/~a", "/b/~0", "/a/#a", "/#c", "/2/#a", "/1/#0"]
